@@ -269,10 +269,10 @@ def interpTableGuard (data : List (List Rat)) (xd fd : Rat) : G :=
     interpCtorGuard (data.map (fun r => r.getD 0 0)) (data.map (fun r => r.getD 1 0)) xd fd
   else stop
 
-/-- the abscissa is inside the tabulated domain, or outside it by less than one percent of the
-    edge interval -/
+/-- the abscissa is inside the tabulated domain, or outside it by at most one percent of the
+    edge interval (`<=` since fix a411065) -/
 abbrev inDomain (N : Nat) (x : Nat → Rat) (v : Rat) : Prop :=
-  (x 0 ≤ v ∧ v ≤ x (N - 1)) ∨ rabs (v - x 0) < (x 1 - x 0) / 100 ∨ rabs (v - x (N - 1)) < (x (N - 1) - x (N - 2)) / 100
+  (x 0 ≤ v ∧ v ≤ x (N - 1)) ∨ rabs (v - x 0) ≤ (x 1 - x 0) / 100 ∨ rabs (v - x (N - 1)) ≤ (x (N - 1) - x (N - 2)) / 100
 
 /-- `Locate(x)` (the guard of Interpolate / Derivative / operator() as well) -/
 def locateGuard (N : Nat) (x : Nat → Rat) (st : Interp.LState) (v : Rat) : G :=
